@@ -2,7 +2,7 @@
 
 from __future__ import annotations
 
-from typing import Self
+from typing import Any, Self
 
 import numpy as np
 from pydantic import ConfigDict, ValidationInfo, model_validator
@@ -77,3 +77,12 @@ class NonlinearConstraintsConfig(ImmutableBaseModel):
         self._immutable()
 
         return self
+
+    @model_validator(mode="wrap")  # type: ignore[arg-type]
+    def _pass_nonlinear_constraints_config_unchanged(self, handler: Any) -> Any:  # noqa: ANN401
+        # An already validated object is in its final form: its bounds are
+        # broadcasted, and any transformation has been applied. Validating it
+        # again, as part of another configuration, must not modify it:
+        if isinstance(self, NonlinearConstraintsConfig):
+            return self
+        return handler(self)
